@@ -64,22 +64,22 @@ Definition b2u_body (p : list Z) : step :=
 Definition replacement : list Z := [255; 253].
 Definition u2b_get (k : list Z) : list Z := match lookup u2b_map k with Some v => v | None => replacement end.
 
-(* body of Utf8ToBig5; [nobranch] is what happens when no arm of the if / else-if chain applies *)
-Definition u2b_nobranch (p r : list Z) : step := Adv [] p.     (* nothing appended, cursor unchanged *)
+(* body of Utf8ToBig5; the final else arm appends the replacement and skips one byte *)
+Definition u2b_else (r : list Z) : step := Adv replacement r.
 Definition u2b_body (p : list Z) : step :=
   match p with
   | [] => Stop
   | b0 :: r =>
       if b0 <? 128 then Adv [b0] r
       else match r with
-           | [] => u2b_nobranch p r
+           | [] => u2b_else r
            | b1 :: r1 =>
                if Z.land b0 224 =? 192 then Adv (u2b_get [b0; b1]) r1           (* len >= 2 && b0&0xe0 == 0xc0 *)
                else match r1 with
-                    | [] => u2b_nobranch p r
+                    | [] => u2b_else r
                     | b2 :: r2 =>
                         if Z.land b0 240 =? 224 then Adv (u2b_get [b0; b1; b2]) r2   (* len >= 3 && b0&0xf0 == 0xe0 *)
-                        else u2b_nobranch p r
+                        else u2b_else r
                     end
            end
   end.
